@@ -5,7 +5,7 @@
     arithmetic of the header (address header, path, payload offsets). *)
 From Coq Require Import Lia ZifyBool ZifyNat ZifyN.
 From Sci Require Import Wire.Codec Wire.Spec_C03 Wire.BitFieldProofs Wire.Proofs_C02 Wire.Proofs_C02b Wire.Proofs_C02c
-  Wire.SpecAgreeProofs.
+  Wire.SpecAgreeProofs Wire.EncodeLengthProofs.
 Local Open Scope N_scope.
 Ltac closed_le := apply N.leb_le; vm_compute; reflexivity.
 Ltac Zify.zify_post_hook ::= Z.div_mod_to_equations.
@@ -128,18 +128,19 @@ Qed.
 (** * UDP *)
 Lemma udp_agree (p : bytes) pl :
   bytes_ok p = true -> spec_udp p = Some pl ->
-  try_from_slice KUdp p = Ok (p, []) /\ decode_udp p = Ok pl.
+  required_size_udp p = Ok (blen p) /\ try_from_slice KUdp p = Ok (p, []) /\ decode_udp p = Ok pl.
 Proof.
   intros Hok. unfold spec_udp. rewrite len_blen.
   destruct (blen p <? 8) eqn:L8; [discriminate|]. apply N.ltb_ge in L8.
   destruct (be p 4 2 =? blen p) eqn:EL; cbn [negb]; [|discriminate]. apply N.eqb_eq in EL.
   intros H. inversion H; subst pl. clear H.
   destruct (spec_udp_agrees p Hok ltac:(unfold UdpDatagram_HEADER_SIZE_BYTES; lia)) as (E1 & E2 & E3 & _).
-  split.
-  - unfold try_from_slice. cbn [required_size]. unfold required_size_udp.
-    change UdpDatagram_HEADER_SIZE_BYTES with 8.
+  assert (RS : required_size_udp p = Ok (blen p)).
+  { unfold required_size_udp. change UdpDatagram_HEADER_SIZE_BYTES with 8.
     replace (blen p <? 8) with false by lia. unfold udp_length in E3. rewrite E3. cbn [obind]. rewrite EL.
-    replace (blen p <? 8) with false by lia. rewrite N.min_id. cbn [obind]. rewrite N.ltb_irrefl.
+    replace (blen p <? 8) with false by lia. rewrite N.min_id. reflexivity. }
+  refine (conj RS (conj _ _)).
+  - unfold try_from_slice. cbn [required_size]. rewrite RS. cbn [obind]. rewrite N.ltb_irrefl.
     rewrite sub_all, sub_none. reflexivity.
   - unfold decode_udp. rewrite E1, E2. cbn [obind]. unfold udp_payload_range. change UdpDatagram_HEADER_SIZE_BYTES with 8.
     rewrite get_unchecked_ok by lia. cbn [obind fst snd]. rewrite sl_sub.
@@ -225,4 +226,332 @@ Proof.
     change (N.to_nat (1 + 0 + 0)) with 1%nat in EI. cbn [spec_infos] in EI.
     destruct (spec_info x 4) as [i0|]; [|discriminate]. inversion EI; subst infos.
     cbn [build_segments nth_error app]. reflexivity.
+Qed.
+
+(** * paths *)
+Definition decode_path_of (pt : N) (x : bytes) : res dp_path :=
+  if pt =? 0 then Ok DP_Empty else if pt =? 1 then decode_stdpath x
+  else if pt =? 2 then decode_onehop x else Ok (DP_Unsupported pt x).
+
+Lemma path_agree pt x pth : bytes_ok x = true -> spec_path pt x = Some pth -> decode_path_of pt x = Ok pth.
+Proof.
+  intros Hok H. pose proof H as H0. unfold decode_path_of. unfold spec_path in H.
+  destruct (pt =? 0) eqn:P0. { destruct (len_ x =? 0); inversion H; reflexivity. }
+  destruct (pt =? 1) eqn:P1. { apply std_agree; assumption. }
+  destruct (pt =? 2) eqn:P2. { apply N.eqb_eq in P2. subst pt. apply onehop_agree; assumption. }
+  inversion H. reflexivity.
+Qed.
+
+Lemma path_len pt x pth : spec_path pt x = Some pth ->
+  (pt = 0 -> blen x = 0) /\ (pt = 2 -> blen x = 32)
+  /\ (pt = 1 -> 4 <= blen x /\ blen x = 4 + std_data_size ((be x 0 4 / 2 ^ 12) mod 64) ((be x 0 4 / 2 ^ 6) mod 64) (be x 0 4 mod 64)).
+Proof.
+  intros H. unfold spec_path in H. refine (conj _ (conj _ _)); intros ->.
+  - change (0 =? 0) with true in H. cbv iota in H. rewrite len_blen in H. destruct (blen x =? 0) eqn:E; [|discriminate]. lia.
+  - change (2 =? 0) with false in H. change (2 =? 1) with false in H. change (2 =? 2) with true in H. cbv iota in H.
+    rewrite len_blen in H. destruct (blen x =? 32) eqn:E; [|discriminate]. lia.
+  - change (1 =? 0) with false in H. change (1 =? 1) with true in H. cbv iota in H.
+    unfold spec_std in H. rewrite len_blen in H. destruct (blen x <? 4) eqn:L; [discriminate|]. cbv zeta in H.
+    match type of H with (if negb ?c then _ else _) = _ => destruct c eqn:C; cbn [negb] in H; [|discriminate] end.
+    apply Bool.andb_true_iff in C. destruct C as [_ C]. apply N.eqb_eq in C.
+    unfold std_data_size, info_field_count, hop_field_count, nz. change InfoField_SIZE_BYTES with 8. change HopField_SIZE_BYTES with 12.
+    split; [lia|]. rewrite C. lia.
+Qed.
+
+Lemma host_rngs s d :
+  byte_lo (dst_host_rng s d) = 28 /\ byte_hi (dst_host_rng s d) = 28 + d
+  /\ byte_lo (src_host_rng s d) = 28 + d /\ byte_hi (src_host_rng s d) = 28 + d + s.
+Proof.
+  unfold dst_host_rng, src_host_rng, rshift, rng_of_range, byte_lo, byte_hi, r_end, r_start, r_width. cbn [fst snd].
+  change AddressHeader_FIXED_SIZE_BITS with 128. change CommonHeader_SIZE_BYTES with 12. repeat split; lia.
+Qed.
+
+Lemma addr_size_sum s d : addr_hdr_size s d = 16 + d + s.
+Proof. unfold addr_hdr_size. change AddressHeader_FIXED_SIZE_BITS with 128. lia. Qed.
+
+Lemma unknown_path_size a t : a <= t -> size_bytes (rng_of_range (a * 8) (t * 8)) = t - a.
+Proof. intros H. unfold size_bytes, rng_of_range, byte_lo, byte_hi, r_end, r_start, r_width. cbn [fst snd]. lia. Qed.
+
+(** * the whole header *)
+Lemma header_agree b h hl pl : bytes_ok b = true -> spec_header b = Some (h, hl, pl) ->
+  exists l, header_layout b = Ok l /\ hl_header_len l = hl /\ hl_payload_len l = pl /\ hl <= blen b /\ 36 <= hl
+            /\ decode_header (sub b 0 hl) = Ok h.
+Proof.
+  intros Hok H. unfold spec_header in H. rewrite len_blen in H.
+  destruct (blen b <? 12) eqn:L12; [discriminate|]. apply N.ltb_ge in L12. cbv zeta in H.
+  pose proof (spec_common_agrees b Hok ltac:(unfold CommonHeader_SIZE_BYTES; lia)) as CA. cbv zeta in CA.
+  destruct CA as (Ev & Etc & Efl & Enh & _ & Epl & Ept & Edn & Esn & _).
+  unfold hv_version, hv_traffic_class, hv_flow_id, hv_next_header, hv_payload_len, hv_path_type, hv_dst_addr_type, hv_src_addr_type in *.
+  assert (Ehu : rd b CommonHeader_HEADER_LEN_RNG 8 = Ok (be b 5 1)).
+  { change CommonHeader_HEADER_LEN_RNG with (8 * 5, 8 * 1). apply rd_bytes; try assumption; lia. }
+  assert (L9 : be b 9 1 < 256) by (apply (be_lt b 9 1 Hok); lia).
+  remember (be b 9 1 / 16) as nd eqn:Hnd. remember (be b 9 1 mod 16) as ns eqn:Hns.
+  assert (Ld : nd < 16) by lia. assert (Ls : ns < 16) by lia.
+  remember ((nd mod 4 + 1) * 4) as dl eqn:Hdl. remember ((ns mod 4 + 1) * 4) as sl_ eqn:Hsl.
+  remember (be b 5 1 * 4) as hl0 eqn:Hhl0. remember (be b 8 1) as pt eqn:Hpt.
+  remember (12 + 16 + dl + sl_) as po eqn:Hpo.
+  match type of H with (if negb ?c then _ else _) = _ => destruct c eqn:C; cbn [negb] in H; [|discriminate] end.
+  apply Bool.andb_true_iff in C. destruct C as [C C4]. apply Bool.andb_true_iff in C. destruct C as [C C3].
+  apply Bool.andb_true_iff in C. destruct C as [C1 C2]. apply N.leb_le in C3, C4.
+  destruct (spec_host nd (sl b 28 dl)) as [dh|] eqn:Hdh; [|discriminate].
+  destruct (spec_host ns (sl b (28 + dl) sl_)) as [sh|] eqn:Hsh; [|discriminate].
+  destruct (spec_path pt (sl b po (hl0 - po))) as [pth|] eqn:Hp; [|discriminate].
+  inversion H; subst h hl pl. clear H.
+  assert (Lx : blen (sl b po (hl0 - po)) = hl0 - po) by (apply sl_blen; lia).
+  destruct (path_len _ _ _ Hp) as (PL0 & PL2 & PL1). rewrite Lx in PL0, PL2, PL1.
+  assert (Hds : hat_size nd = dl) by (rewrite hat_size_spec by exact Ld; lia).
+  assert (Hss : hat_size ns = sl_) by (rewrite hat_size_spec by exact Ls; lia).
+  (* the layout *)
+  assert (HLb : exists l, HL b = Ok l /\ hl_header_len l = hl0 /\ hl_payload_len l = be b 6 2).
+  { unfold HL. change CommonHeader_SIZE_BYTES with 12. replace (blen b <? 12) with false by lia.
+    rewrite Ev. cbn [obind]. rewrite C1. cbn [negb]. rewrite Ept, Esn, Edn, Ehu, Epl. cbn [obind].
+    rewrite Hds, Hss, addr_size_sum. rewrite <- Hhl0.
+    replace (12 + (16 + dl + sl_)) with po by lia.
+    replace (blen b <? po) with false by lia.
+    change PT_SCION with 1. change PT_ONEHOP with 2. change PT_EMPTY with 0.
+    destruct (pt =? 1) eqn:P1.
+    { apply N.eqb_eq in P1. destruct (PL1 P1) as [G4 GL].
+      change StdPathMeta_SIZE_BYTES with 4. replace (blen b - po <? 4) with false by lia.
+      assert (Lsuf : 4 <= blen (sub b po (blen b))) by (rewrite blen_sub by lia; lia).
+      destruct (spec_meta_agrees (sub b po (blen b)) (bytes_ok_sub _ _ _ Hok) ltac:(unfold StdPathMeta_SIZE_BYTES; exact Lsuf)) as (_ & _ & _ & E0 & E1 & E2).
+      unfold sp_seg0, sp_seg1, sp_seg2 in E0, E1, E2.
+      rewrite (rd_suffix b po) in E0, E1, E2 by (first [ (assert (Q : byte_hi StdPathMeta_SEG0_LEN_RNG <= 4) by closed_le; lia)
+                                                          | (assert (Q : byte_hi StdPathMeta_SEG1_LEN_RNG <= 4) by closed_le; lia)
+                                                          | (assert (Q : byte_hi StdPathMeta_SEG2_LEN_RNG <= 4) by closed_le; lia) ]).
+      rewrite E0, E1, E2. cbn [obind].
+      assert (Em : be (sub b po (blen b)) 0 4 = be (sl b po (hl0 - po)) 0 4).
+      { rewrite be_sub by lia. rewrite be_sl by lia. reflexivity. }
+      rewrite Em. cbn [path_layout_size]. change StdPathMeta_SIZE_BYTES with 4.
+      match goal with |- context [std_data_size ?a ?b ?c] => remember (std_data_size a b c) as ds eqn:Hds' end.
+      replace (blen b <? po + (4 + ds)) with false by lia.
+      replace (po + (4 + ds) =? hl0) with true by lia. cbn [negb]. eexists. split; [reflexivity|]. split; reflexivity. }
+    destruct (pt =? 2) eqn:P2.
+    { apply N.eqb_eq in P2. pose proof (PL2 P2) as G. cbn [obind path_layout_size]. change OneHopPath_SIZE_BYTES with 32.
+      replace (blen b <? po + 32) with false by lia. replace (po + 32 =? hl0) with true by lia. cbn [negb].
+      eexists. split; [reflexivity|]. split; reflexivity. }
+    destruct (pt =? 0) eqn:P0.
+    { apply N.eqb_eq in P0. pose proof (PL0 P0) as G. cbn [obind path_layout_size].
+      replace (blen b <? po + 0) with false by lia. replace (po + 0 =? hl0) with true by lia. cbn [negb].
+      eexists. split; [reflexivity|]. split; reflexivity. }
+    replace (hl0 <? po) with false by lia. cbn [obind path_layout_size]. rewrite unknown_path_size by lia.
+    replace (blen b <? po + (hl0 - po)) with false by lia. replace (po + (hl0 - po) =? hl0) with true by lia. cbn [negb].
+    eexists. split; [reflexivity|]. split; reflexivity. }
+  destruct HLb as (l & HLl & Hl1 & Hl2).
+  assert (H36 : 36 <= hl0) by (clear - C3 Hpo Hdl Hsl; lia).
+  exists l. rewrite header_layout_HL. refine (conj HLl (conj Hl1 (conj Hl2 (conj C4 (conj H36 _))))).
+  (* the header model *)
+  assert (Lhv : blen (sub b 0 hl0) = hl0) by (rewrite blen_sub by lia; lia).
+  remember (sub b 0 hl0) as hv eqn:Hhv.
+  assert (RP : forall r bits, byte_hi r <= 36 -> rd hv r bits = rd b r bits).
+  { intros r bits Hr. rewrite Hhv. apply rd_prefix; lia. }
+  unfold decode_header, hv_traffic_class, hv_flow_id, hv_next_header, hv_dst_ia, hv_src_ia.
+  rewrite !RP by (first [closed_le | (change CommonHeader_SIZE_BYTES with 12; closed_le)]).
+  rewrite Etc, Efl, Enh. cbn [obind].
+  change (rshift AddressHeader_DST_IA_RNG CommonHeader_SIZE_BYTES) with (8 * 12, 8 * 8).
+  change (rshift AddressHeader_SRC_IA_RNG CommonHeader_SIZE_BYTES) with (8 * 20, 8 * 8).
+  rewrite !rd_bytes by (try assumption; lia). cbn [obind].
+  unfold hv_dst_host, hv_src_host, hv_dst_host_raw, hv_src_host_raw, hv_src_addr_type, hv_dst_addr_type.
+  rewrite !RP by closed_le. rewrite Esn, Edn. cbn [obind]. rewrite Hds, Hss.
+  destruct (host_rngs sl_ dl) as (R1 & R2 & R3 & R4). rewrite R1, R2, R3, R4.
+  rewrite !get_unchecked_ok by lia. cbn [obind fst snd].
+  rewrite Hhv. rewrite !sub_sub_prefix by lia. rewrite <- Hhv.
+  replace (sub b 28 (28 + dl)) with (sl b 28 dl) by (apply sl_sub).
+  replace (sub b (28 + dl) (28 + dl + sl_)) with (sl b (28 + dl) sl_) by (apply sl_sub).
+  assert (B1 : blen (sl b 28 dl) = (nd mod 4 + 1) * 4) by (rewrite sl_blen by (clear - Hpo C3 C4; lia); exact Hdl).
+  assert (B2 : blen (sl b (28 + dl) sl_) = (ns mod 4 + 1) * 4) by (rewrite sl_blen by (clear - Hpo C3 C4; lia); exact Hsl).
+  rewrite (host_agree nd _ dh Ld B1 Hdh).
+  rewrite (host_agree ns _ sh Ls B2 Hsh).
+  (* the path *)
+  unfold hv_path_range, hv_dst_addr_type, hv_src_addr_type, hv_header_len, hv_path_type.
+  rewrite !RP by closed_le. rewrite Esn, Edn, Ehu, Ept. cbn [obind]. rewrite Hds, Hss, addr_size_sum. rewrite <- Hhl0.
+  change CommonHeader_SIZE_BYTES with 12. replace (12 + (16 + sl_ + dl)) with po by lia.
+  pose proof (path_agree pt _ pth (bytes_ok_sl b po (hl0 - po) Hok) Hp) as PA. unfold decode_path_of in PA.
+  assert (Ex : sub hv po hl0 = sl b po (hl0 - po)).
+  { rewrite Hhv. rewrite sub_sub_prefix by lia. rewrite sl_sub. f_equal. lia. }
+  change PT_SCION with 1. change PT_ONEHOP with 2. change PT_EMPTY with 0.
+  destruct (pt =? 0) eqn:P0.
+  { cbn [obind]. rewrite P0. try rewrite P0 in PA. inversion PA. reflexivity. }
+  try rewrite P0 in PA.
+  destruct (pt =? 2) eqn:P2.
+  { assert (P2e : pt = 2) by (apply N.eqb_eq; exact P2). pose proof (PL2 P2e) as G. change OneHopPath_SIZE_BYTES with 32.
+    assert (P1 : (pt =? 1) = false) by (clear - P2e; lia).
+    rewrite get_unchecked_ok by lia. cbn [obind]. rewrite P0, P1, P2.
+    rewrite get_unchecked_ok by lia. cbn [obind]. replace (po + 32) with hl0 by lia. rewrite Ex.
+    try rewrite P1 in PA. try rewrite P2 in PA. rewrite PA. reflexivity. }
+  rewrite get_unchecked_ok by lia. cbn [obind]. rewrite P0.
+  destruct (pt =? 1) eqn:P1.
+  { rewrite get_unchecked_ok by lia. cbn [obind]. rewrite Ex, PA. reflexivity. }
+  rewrite P2. rewrite get_unchecked_ok by lia. cbn [obind]. rewrite Ex. try rewrite P2 in PA. inversion PA. reflexivity.
+Qed.
+
+(** * SCMP *)
+Lemma tfs_full k (p : bytes) : required_size k p = Ok (blen p) -> try_from_slice k p = Ok (p, []).
+Proof. intros H. unfold try_from_slice. rewrite H. cbn [obind]. rewrite N.ltb_irrefl, sub_all, sub_none. reflexivity. Qed.
+
+Lemma scmp_tail_full ty (p : bytes) : scmp_header_size ty <= blen p ->
+  (r <- scmp_tail_range ty p ;; Ok (sub p (fst r) (snd r))) = Ok (sl p (scmp_header_size ty) (blen p - scmp_header_size ty)).
+Proof.
+  intros H. unfold scmp_tail_range. remember (scmp_header_size ty) as hh eqn:Hh. cbv zeta.
+  assert (E : byte_lo (hh * 8, (blen p - hh) * 8) = hh /\ byte_hi (hh * 8, (blen p - hh) * 8) = blen p).
+  { unfold byte_lo, byte_hi, r_end, r_start, r_width. cbn [fst snd]. split; lia. }
+  destruct E as [E1 E2]. rewrite E1, E2. rewrite index_range_ok by lia. cbn [obind fst snd].
+  rewrite sl_sub. replace (hh + (blen p - hh)) with (blen p) by lia. reflexivity.
+Qed.
+
+Lemma scmp_required_full ty (p : bytes) : bytes_ok p = true -> 8 <= blen p -> be p 0 1 = ty ->
+  scmp_header_size ty <= blen p -> (scmp_fixed_size ty = true -> blen p = scmp_header_size ty) ->
+  required_size_scmp p = Ok (blen p).
+Proof.
+  intros Hok H8 Ety Hh Hf. unfold required_size_scmp, required_size_scmp_msg.
+  change (scmp_header_size 256) with 8. change (scmp_fixed_size 256) with false. cbv iota.
+  replace (blen p <? 8) with false by lia. rewrite get_unchecked_ok by lia. cbn [obind]. rewrite sub_all.
+  change ScmpUnknownMessage_TYPE_RNG with (8 * 0, 8 * 1). rewrite rd_bytes by (try assumption; lia). cbn [obind]. rewrite Ety.
+  replace (blen p <? scmp_header_size ty) with false by lia.
+  destruct (scmp_fixed_size ty); [rewrite <- (Hf eq_refl)|]; reflexivity.
+Qed.
+
+Ltac rdb p o k := rewrite (rd_bytes p o k) by (try assumption; lia).
+
+Lemma scmp_agree (p : bytes) pl :
+  bytes_ok p = true -> spec_scmp p = Some pl ->
+  required_size_scmp p = Ok (blen p) /\ try_from_slice KScmp p = Ok (p, []) /\ decode_scmp p = Ok pl.
+Proof.
+  intros Hok. unfold spec_scmp. rewrite len_blen.
+  destruct (blen p <? 8) eqn:L8; [discriminate|]. apply N.ltb_ge in L8. cbv zeta.
+  intros H.
+  assert (Main : required_size_scmp p = Ok (blen p) /\ decode_scmp p = Ok pl);
+    [|destruct Main as [M1 M2]; refine (conj M1 (conj (tfs_full KScmp p M1) M2))].
+  assert (Ety : scmp_type p = Ok (be p 0 1)).
+  { unfold scmp_type. change ScmpUnknownMessage_TYPE_RNG with (8 * 0, 8 * 1). apply rd_bytes; try assumption; lia. }
+  assert (Ecode : scmp_code p = Ok (be p 1 1)).
+  { unfold scmp_code. change ScmpUnknownMessage_CODE_RNG with (8 * 1, 8 * 1). apply rd_bytes; try assumption; lia. }
+  unfold decode_scmp. rewrite Ety. cbn [obind]. cbv zeta.
+  change SCMP_T_DestinationUnreachable with 1. change SCMP_T_PacketTooBig with 2. change SCMP_T_ParameterProblem with 4.
+  change SCMP_T_ExternalInterfaceDown with 5. change SCMP_T_InternalConnectivityDown with 6. change SCMP_T_EchoRequest with 128.
+  change SCMP_T_EchoReply with 129. change SCMP_T_TracerouteRequest with 130. change SCMP_T_TracerouteReply with 131.
+  remember (be p 0 1) as ty eqn:Hty.
+  destruct (ty =? 1) eqn:T1.
+  { apply N.eqb_eq in T1. destruct (be p 4 4 =? 0); [|discriminate]. inversion H; subst pl. subst ty. try rewrite T1.
+    split; [apply (scmp_required_full 1); try assumption; try (change (scmp_header_size 1) with 8; lia); discriminate|].
+    rewrite Ecode. cbn [obind]. rewrite scmp_tail_full by (change (scmp_header_size 1) with 8; lia). cbn [obind]. reflexivity. }
+  destruct (ty =? 2) eqn:T2.
+  { apply N.eqb_eq in T2. destruct ((be p 4 2 =? 0) && (be p 1 1 =? 0)); [|discriminate]. inversion H; subst pl. subst ty. try rewrite T2.
+    split; [apply (scmp_required_full 2); try assumption; try (change (scmp_header_size 2) with 8; lia); discriminate|].
+    change ScmpPacketTooBig_MTU_RNG with (8 * 6, 8 * 2). rdb p 6 2. cbn [obind].
+    rewrite scmp_tail_full by (change (scmp_header_size 2) with 8; lia). cbn [obind]. reflexivity. }
+  destruct (ty =? 4) eqn:T4.
+  { apply N.eqb_eq in T4. destruct (be p 4 2 =? 0); [|discriminate]. inversion H; subst pl. subst ty. try rewrite T4.
+    split; [apply (scmp_required_full 4); try assumption; try (change (scmp_header_size 4) with 8; lia); discriminate|].
+    rewrite Ecode. cbn [obind]. change ScmpParameterProblem_POINTER_RNG with (8 * 6, 8 * 2). rdb p 6 2. cbn [obind].
+    rewrite scmp_tail_full by (change (scmp_header_size 4) with 8; lia). cbn [obind]. reflexivity. }
+  destruct (ty =? 5) eqn:T5.
+  { apply N.eqb_eq in T5. destruct (20 <=? blen p) eqn:L20; cbn [andb] in H; [|discriminate]. apply N.leb_le in L20.
+    destruct (be p 1 1 =? 0); cbn [andb] in H; [|discriminate].
+    destruct (be p 12 8 <? 65536) eqn:F; [|discriminate]. apply N.ltb_lt in F. inversion H; subst pl. subst ty. try rewrite T5.
+    split; [apply (scmp_required_full 5); try assumption; try (change (scmp_header_size 5) with 20; lia); discriminate|].
+    change ScmpExternalInterfaceDown_ISD_AS_RNG with (8 * 4, 8 * 8). change ScmpExternalInterfaceDown_INTERFACE_ID_RNG with (8 * 12, 8 * 8).
+    rdb p 4 8. rdb p 12 8. cbn [obind]. rewrite scmp_tail_full by (change (scmp_header_size 5) with 20; lia). cbn [obind].
+    unfold trunc. change (2 ^ 16) with 65536. rewrite N.mod_small by exact F. reflexivity. }
+  destruct (ty =? 6) eqn:T6.
+  { apply N.eqb_eq in T6. destruct (28 <=? blen p) eqn:L28; cbn [andb] in H; [|discriminate]. apply N.leb_le in L28.
+    destruct (be p 1 1 =? 0); cbn [andb] in H; [|discriminate].
+    destruct (be p 12 8 <? 65536) eqn:F; cbn [andb] in H; [|discriminate]. apply N.ltb_lt in F.
+    destruct (be p 20 8 <? 65536) eqn:G; [|discriminate]. apply N.ltb_lt in G. inversion H; subst pl. subst ty. try rewrite T6.
+    split; [apply (scmp_required_full 6); try assumption; try (change (scmp_header_size 6) with 28; lia); discriminate|].
+    change ScmpInternalConnectivityDown_ISD_AS_RNG with (8 * 4, 8 * 8).
+    change ScmpInternalConnectivityDown_INGRESS_INTERFACE_ID_RNG with (8 * 12, 8 * 8).
+    change ScmpInternalConnectivityDown_EGRESS_INTERFACE_ID_RNG with (8 * 20, 8 * 8).
+    rdb p 4 8. rdb p 12 8. rdb p 20 8. cbn [obind]. rewrite scmp_tail_full by (change (scmp_header_size 6) with 28; lia). cbn [obind].
+    unfold trunc. change (2 ^ 16) with 65536. rewrite !N.mod_small by assumption. reflexivity. }
+  destruct (ty =? 128) eqn:T128.
+  { apply N.eqb_eq in T128. destruct (be p 1 1 =? 0); [|discriminate]. inversion H; subst pl. subst ty. try rewrite T128.
+    split; [apply (scmp_required_full 128); try assumption; try (change (scmp_header_size 128) with 8; lia); discriminate|].
+    change ScmpEchoRequest_IDENTIFIER_RNG with (8 * 4, 8 * 2). change ScmpEchoRequest_SEQUENCE_NUMBER_RNG with (8 * 6, 8 * 2).
+    rdb p 4 2. rdb p 6 2. cbn [obind]. rewrite scmp_tail_full by (change (scmp_header_size 128) with 8; lia). cbn [obind]. reflexivity. }
+  destruct (ty =? 129) eqn:T129.
+  { apply N.eqb_eq in T129. destruct (be p 1 1 =? 0); [|discriminate]. inversion H; subst pl. subst ty. try rewrite T129.
+    split; [apply (scmp_required_full 129); try assumption; try (change (scmp_header_size 129) with 8; lia); discriminate|].
+    change ScmpEchoReply_IDENTIFIER_RNG with (8 * 4, 8 * 2). change ScmpEchoReply_SEQUENCE_NUMBER_RNG with (8 * 6, 8 * 2).
+    rdb p 4 2. rdb p 6 2. cbn [obind]. rewrite scmp_tail_full by (change (scmp_header_size 129) with 8; lia). cbn [obind]. reflexivity. }
+  destruct (ty =? 130) eqn:T130.
+  { apply N.eqb_eq in T130. destruct (blen p =? 24) eqn:L24; cbn [andb] in H; [|discriminate]. apply N.eqb_eq in L24.
+    destruct ((be p 1 1 =? 0) && (be p 8 8 =? 0) && (be p 16 8 =? 0)); [|discriminate]. inversion H; subst pl. subst ty. try rewrite T130.
+    split; [apply (scmp_required_full 130); try assumption; try (change (scmp_header_size 130) with 24; lia)|].
+    change ScmpTracerouteRequest_IDENTIFIER_RNG with (8 * 4, 8 * 2). change ScmpTracerouteRequest_SEQUENCE_NUMBER_RNG with (8 * 6, 8 * 2).
+    rdb p 4 2. rdb p 6 2. cbn [obind]. reflexivity. }
+  destruct (ty =? 131) eqn:T131.
+  { apply N.eqb_eq in T131. destruct (blen p =? 24) eqn:L24; cbn [andb] in H; [|discriminate]. apply N.eqb_eq in L24.
+    destruct (be p 1 1 =? 0); cbn [andb] in H; [|discriminate].
+    destruct (be p 16 8 <? 65536) eqn:F; [|discriminate]. apply N.ltb_lt in F. inversion H; subst pl. subst ty. try rewrite T131.
+    split; [apply (scmp_required_full 131); try assumption; try (change (scmp_header_size 131) with 24; lia)|].
+    change ScmpTracerouteReply_IDENTIFIER_RNG with (8 * 4, 8 * 2). change ScmpTracerouteReply_SEQUENCE_NUMBER_RNG with (8 * 6, 8 * 2).
+    change ScmpTracerouteReply_ISD_AS_RNG with (8 * 8, 8 * 8). change ScmpTracerouteReply_INTERFACE_ID_RNG with (8 * 16, 8 * 8).
+    rdb p 4 2. rdb p 6 2. rdb p 8 8. rdb p 16 8. cbn [obind].
+    unfold trunc. change (2 ^ 16) with 65536. rewrite N.mod_small by exact F. reflexivity. }
+  destruct (be p 4 4 =? 0); [|discriminate]. inversion H; subst pl.
+  assert (K : scmp_is_known ty = false).
+  { unfold scmp_is_known, scmp_type_known. cbn [existsb].
+    change SCMP_T_DestinationUnreachable with 1. change SCMP_T_PacketTooBig with 2. change SCMP_T_ParameterProblem with 4.
+    change SCMP_T_ExternalInterfaceDown with 5. change SCMP_T_InternalConnectivityDown with 6. change SCMP_T_EchoRequest with 128.
+    change SCMP_T_EchoReply with 129. change SCMP_T_TracerouteRequest with 130. change SCMP_T_TracerouteReply with 131.
+    rewrite T1, T2, T4, T5, T6, T128, T129, T130, T131. reflexivity. }
+  destruct (scmp_header_size_unknown ty K) as [K8 Kf].
+  split; [apply (scmp_required_full ty); try assumption; try (rewrite K8; lia); [symmetry; exact Hty|rewrite Kf; discriminate]|].
+  rewrite Ecode. cbn [obind]. rewrite scmp_tail_full by (rewrite K8; lia). rewrite K8. cbn [obind]. reflexivity.
+Qed.
+
+(** * whole packets *)
+Lemma packet_frame (b : bytes) h hl pl :
+  bytes_ok b = true -> spec_header b = Some (h, hl, pl) -> blen b = hl + pl ->
+  required_size_raw b = Ok (blen b) /\ pkt_header b = Ok (sub b 0 hl) /\ decode_header (sub b 0 hl) = Ok h
+  /\ pkt_payload b = Ok (sl b hl pl).
+Proof.
+  intros Hok H HL.
+  destruct (header_agree b h hl pl Hok H) as (l & Hl & E1 & E2 & Hle & H36 & Hd).
+  destruct (header_layout_fields b l Hl) as (Eh & Hm & _). rewrite E1 in Eh, Hm.
+  refine (conj _ (conj _ (conj Hd _))).
+  - unfold required_size_raw. rewrite Hl. cbn [obind]. rewrite E1, E2. f_equal. lia.
+  - unfold pkt_header, hv_header_len. rewrite Eh. cbn [obind].
+    replace (hl / 4 * 4) with hl by lia. rewrite get_unchecked_ok by lia. reflexivity.
+  - unfold pkt_payload. rewrite (pkt_payload_range_ok b l Hl). cbn [obind fst snd]. rewrite E1, E2.
+    replace (N.min pl (blen b - hl)) with pl by lia. rewrite sl_sub. reflexivity.
+Qed.
+
+Theorem spec_decode_dec kind (b : bytes) m :
+  bytes_ok b = true -> spec_decode kind b = Some m -> decode_packet kind b = Ok (m, []).
+Proof.
+  intros Hok H. unfold spec_decode in H.
+  destruct (spec_header b) as [[[h hl] pl]|] eqn:Hh; [|discriminate].
+  rewrite len_blen in H. destruct (blen b =? hl + pl) eqn:EL; cbn [negb] in H; [|discriminate]. apply N.eqb_eq in EL.
+  destruct (packet_frame b h hl pl Hok Hh EL) as (Rr & Ph & Dh & Pp).
+  assert (Okp : bytes_ok (sl b hl pl) = true) by (apply bytes_ok_sl, Hok).
+  unfold decode_packet.
+  destruct kind as [|k].
+  - (* raw *)
+    inversion H; subst m. rewrite (tfs_full KRaw b Rr). cbn [obind]. rewrite Ph. cbn [obind]. rewrite Dh. cbn [obind].
+    rewrite Pp. cbn [obind]. reflexivity.
+  - destruct k as [k|k|].
+    + (* SCMP *)
+      destruct (h_nh h =? 202); [|discriminate].
+      destruct (spec_scmp (sl b hl pl)) as [x|] eqn:Es; [|discriminate]. inversion H; subst m.
+      destruct (scmp_agree _ x Okp Es) as (S1 & S2 & S3).
+      assert (Rk : required_size KScmpPkt b = Ok (blen b)).
+      { cbn [required_size]. unfold required_size_scmp_pkt. rewrite Rr. cbn [obind]. rewrite Pp. cbn [obind]. rewrite S1. reflexivity. }
+      rewrite (tfs_full KScmpPkt b Rk). cbn [obind]. rewrite Ph. cbn [obind]. rewrite Dh. cbn [obind]. rewrite Pp. cbn [obind].
+      rewrite S2, S3. cbn [obind]. reflexivity.
+    + destruct (h_nh h =? 202); [|discriminate].
+      destruct (spec_scmp (sl b hl pl)) as [x|] eqn:Es; [|discriminate]. inversion H; subst m.
+      destruct (scmp_agree _ x Okp Es) as (S1 & S2 & S3).
+      assert (Rk : required_size KScmpPkt b = Ok (blen b)).
+      { cbn [required_size]. unfold required_size_scmp_pkt. rewrite Rr. cbn [obind]. rewrite Pp. cbn [obind]. rewrite S1. reflexivity. }
+      rewrite (tfs_full KScmpPkt b Rk). cbn [obind]. rewrite Ph. cbn [obind]. rewrite Dh. cbn [obind]. rewrite Pp. cbn [obind].
+      rewrite S2, S3. cbn [obind]. reflexivity.
+    + (* UDP *)
+      destruct (h_nh h =? 17); [|discriminate].
+      destruct (spec_udp (sl b hl pl)) as [x|] eqn:Es; [|discriminate]. inversion H; subst m.
+      destruct (udp_agree _ x Okp Es) as (S1 & S2 & S3).
+      assert (Rk : required_size KUdpPkt b = Ok (blen b)).
+      { cbn [required_size]. unfold required_size_udp_pkt. rewrite Rr. cbn [obind]. rewrite Pp. cbn [obind]. rewrite S1. reflexivity. }
+      rewrite (tfs_full KUdpPkt b Rk). cbn [obind]. rewrite Ph. cbn [obind]. rewrite Dh. cbn [obind]. rewrite Pp. cbn [obind].
+      rewrite S2, S3. cbn [obind]. reflexivity.
 Qed.
